@@ -57,7 +57,7 @@ Qed.
 
 (* kscale = 0 .. N-1 gives the whole transform *)
 Lemma dft_bins_all x : DFTB x (map Z.of_nat (seq 0 N)) = DFT x.
-Proof using.
+Proof using Fth HN.
   unfold dft_bins, dft. rewrite map_map. apply map_ext_in. intros k Hk. apply in_seq in Hk.
   apply (sum_ext R rO rI radd rmul rsub ropp Rth). intros n _. f_equal. f_equal. f_equal.
   unfold bin_of. rewrite Z.mod_small by lia. lia.
